@@ -180,6 +180,11 @@ class DropletTrack:
                     "Track data cannot be stored contiguously if it contains multiple "
                     "droplet classes: " + ", ".join(c.__name__ for c in classes)
                 )
+            if len({d.data.dtype for d in self.droplets}) > 1:
+                raise TypeError(
+                    "Track data cannot be stored contiguously if the droplets have "
+                    "different data layouts, e.g., different numbers of amplitudes"
+                )
             d0 = self.first
             dtype = [("time", "f8")] + d0.data.dtype.descr
             result = np.empty(len(self), dtype=dtype)
